@@ -74,7 +74,7 @@ Definition raw_nonneg (rq : rawreq) : bool :=
 Definition op_wf (o : op) : bool :=
   match o with
   | ORefresh inv => forallb (fun i => res_nonneg (di_res i)) inv
-  | OSchedule _ rq => raw_nonneg rq
+  | OSchedule _ rq | OPreemptFilter _ rq _ => raw_nonneg rq
   | OForeignAdd _ al | OPodUpdate _ al => dallocs_wf (group_allocs al)
   | _ => true
   end.
@@ -168,7 +168,7 @@ Definition chk (b : bool) (c : Z) : Z := if b then 0 else c.
 Definition is_frame (o : op) (code : Z) : bool :=
   (code =? -1)
   || match o with
-     | OPodAdd _ => true
+     | OPodAdd _ | OPreemptFilter _ _ _ => true
      | OSchedule _ _ => negb (code =? 0)
      | _ => false
      end.
